@@ -714,6 +714,18 @@ func enclosingName(p *packages.Package, file *ast.File, pos token.Pos) string {
 	return rel + "." + fd.Name.Name
 }
 
+// ssaWhere names a declared function the way enclosingName does.
+func ssaWhere(f *ssa.Function) string {
+	rel := ""
+	if f.Pkg != nil {
+		rel = relPkg(f.Pkg.Pkg.Path())
+	}
+	if fd, ok := f.Syntax().(*ast.FuncDecl); ok && fd.Recv != nil && len(fd.Recv.List) == 1 {
+		return rel + ".(" + types.ExprString(fd.Recv.List[0].Type) + ")." + fd.Name.Name
+	}
+	return rel + "." + f.Name()
+}
+
 func objName(o types.Object) string {
 	if f, ok := o.(*types.Func); ok {
 		return f.FullName()
@@ -821,6 +833,30 @@ func c05API(c *Ctx, r *Report) {
 				usedAllow[where+"|"+on] = true
 				r.OK("api-policy", where+"|"+on, u.id.Pos(), true, "allowed: "+reason)
 				continue
+			}
+			// a helper newer than the table acts for its callers: allowed when every
+			// function it runs on behalf of is allowed this use
+			if fd := enclosingFunc(file, u.id.Pos()); fd != nil {
+				if fobj, _ := p.TypesInfo.Defs[fd.Name].(*types.Func); fobj != nil {
+					if fn := c.Prog.FuncValue(fobj); fn != nil && isNewFunc(fn) {
+						owners, okOwn := ownerFuncs(c, fn)
+						all := okOwn && len(owners) > 0
+						var names []string
+						for _, o := range owners {
+							ow := ssaWhere(o)
+							names = append(names, ow)
+							if _, ok := apiAllowed[ow][on]; !ok {
+								all = false
+							} else {
+								usedAllow[ow+"|"+on] = true
+							}
+						}
+						if all {
+							r.OK("api-policy", where+"|"+on, u.id.Pos(), true, "new helper acting only for "+strings.Join(names, ", ")+", which may use "+on)
+							continue
+						}
+					}
+				}
 			}
 			nflag++
 			r.Bad("api-policy", where+"|"+on, u.id.Pos(), where+" uses "+on+": "+flagged)
